@@ -336,24 +336,65 @@ def strat_gzip(tier):
     })
 
 
+MiB = 1 << 20
+BIG_SIZES = [MiB, 4 * MiB - 1, 4 * MiB, 4 * MiB + 1, 6 * MiB + 500000, 8 * MiB - 1, 8 * MiB, 8 * MiB + 1, 12 * MiB, 16 * MiB + 3]
+
+
+def strat_gzipbig(tier):
+    # scale class: megabyte payloads (exact multiples of 4 MiB and their neighbours), from incompressible to all-zero
+    return st.fixed_dictionaries({
+        'sub': st.just('gzipbig'),
+        'big': st.sampled_from(BIG_SIZES if tier != 'quick' else BIG_SIZES[:9]),
+        'content': st.sampled_from(['zeros', 'zeros', 'pattern', 'random', 'mixed']),
+        'content_seed': st.integers(0, 1000),
+        'level': st.sampled_from([1, 4, 6, 6, 9]),
+    })
+
+
+def _big_data(case):
+    import random
+    n = case['big']
+    kind = case['content']
+    if kind == 'zeros':
+        return bytes(n)
+    if kind == 'pattern':
+        unit = bytes(range(256)) * 3 + b'boundary'
+        return (unit * (n // len(unit) + 1))[:n]
+    rnd = random.Random(case['content_seed'])     # deterministic function of the case
+    if kind == 'random':
+        return rnd.randbytes(n)
+    half = n // 2
+    return rnd.randbytes(half) + bytes(n - half)
+
+
 def run_gzip(case):
     out = Outcome()
-    data = j2b(case['data']) * max(0, case['repeat']) + j2b(case['tail'])
-    size = case.get('size')
-    if size:
-        data = (data or b'\x00') * (size // max(1, len(data)) + 1)
-        data = data[:size]
+    if case.get('big'):
+        data = _big_data(case)
+        out.label('big:%s:%.1fMiB' % (case['content'], len(data) / MiB))
+        if len(data) % (4 * MiB) == 0:
+            out.label('big:multiple_of_4MiB')
+    else:
+        data = j2b(case['data']) * max(0, case['repeat']) + j2b(case['tail'])
+        size = case.get('size')
+        if size:
+            data = (data or b'\x00') * (size // max(1, len(data)) + 1)
+            data = data[:size]
     level = min(9, max(1, case['level']))
     z = _call(strutils.gzip_bytes, data, level)
     if z[0] != 'ok' or not isinstance(z[1], bytes):
         return out.fail('c14.gzip.raises', 'gzip_bytes(<%d bytes>, %d) -> %r' % (len(data), level, z))
     u = _call(strutils.gunzip_bytes, z[1])
     if u != ('ok', data):
-        return out.fail('c14.gzip.round-trip', 'gunzip_bytes(gzip_bytes(%r..., level=%d)) -> %r' % (data[:40], level, (u[0], u[1][:60] if u[0] == 'ok' else u[1:])))
+        return out.fail('c14.gzip.round-trip', 'gunzip_bytes(gzip_bytes(<%d bytes> %r..., level=%d)) -> %r' % (
+            len(data), data[:40], level, (u[0], '<%d bytes> %r' % (len(u[1]), u[1][:60]) if u[0] == 'ok' else u[1:])))
     if _call(gzip.decompress, z[1]) != ('ok', data):
         return out.fail('c14.gzip.not-gzip', 'gzip.decompress(gzip_bytes(%r...)) differs' % (data[:40],))
     if _call(strutils.gunzip_bytes, gzip.compress(data, level)) != ('ok', data):
         return out.fail('c14.gzip.gunzip', 'gunzip_bytes(gzip.compress(%r...)) differs' % (data[:40],))
+    if case.get('big'):
+        out.nontrivial = True
+        return out
     d = _call(strutils.gzip_bytes, data)
     if d[0] != 'ok' or _call(strutils.gunzip_bytes, d[1]) != ('ok', data):
         return out.fail('c14.gzip.round-trip', 'default level round trip fails for %r...' % (data[:40],))
@@ -370,4 +411,5 @@ SUBS = {
     'cmd': Sub('cmd', strat_cmd, run_cmd, quick=20000, thorough=400000, quick_shards=3),
     'int': Sub('int', strat_int, run_int, quick=8000, thorough=200000, quick_shards=3),
     'gzip': Sub('gzip', strat_gzip, run_gzip, quick=1500, thorough=32000, quick_shards=2),
+    'gzipbig': Sub('gzipbig', strat_gzipbig, run_gzip, quick=64, thorough=1600, quick_shards=16),
 }
